@@ -1,7 +1,7 @@
 CONSTANTS
   NK = 4
   NV = 2
-  MaxLen = 5
+  MaxLen = 6
   Reads <- ReadsAll
   Lims <- Lims02
   Grow = 0
